@@ -197,6 +197,16 @@ theorem C03_redirect_key_origin (kindOf : κ → CertKind) (own : κ) (order : L
   obtain ⟨cs, hmc, c, hc, hs, hk⟩ := redirectCheck_accepted h
   exact ⟨c, hs, mdCerts_sound hmc hc, hk⟩
 
+/-- A detached signature counts only with both parameters present and an implemented `SigAlg`:
+    with `SigAlg`/`Signature` missing, or a `SigAlg` the library does not implement (where no key
+    verifies anything), the request is refused whatever the `Signature` value. -/
+theorem C03_redirect_parameters (kindOf : κ → CertKind) (own : κ) (order : List RoleKind) (md : Metadata ι κ)
+    (issuer : Option ι) (signer : Option κ) (p : DetParams)
+    (h : (redirectCheckP kindOf own order md issuer signer p).verdict = .accepted) :
+    p = .ok ∧ ∃ k, signer = some k ∧ k ∈ boundKeys md issuer ∧ kindOf k = .rsa := by
+  obtain ⟨hp, hr⟩ := redirectCheckP_accepted h
+  exact ⟨hp, C03_redirect_key_origin kindOf own order md issuer signer hr⟩
+
 /-- The verifier's own-key default (`key or self.key` in `RSASigner.verify`) is never reached from
     the Redirect check: its result does not depend on the receiver's own key. -/
 theorem C03_redirect_own_key_irrelevant (kindOf : κ → CertKind) (own own' : κ) (order : List RoleKind)
@@ -263,10 +273,10 @@ theorem C03_only_md_forms_never_weaker (f : CfgForm) (h : policy f = true) :
     additional enveloped signature) implies `KeyOrigin` — with `only_valid_cert` off and, for a
     detached signature without an enveloped one, signed requests required. -/
 theorem C03_accept_key_origin (kindOf : κ → CertKind) (own : κ) (order : List RoleKind)
-    (hord : ∀ k : RoleKind, k ∈ order) (onlyMd must : Bool) (md : Metadata ι κ) (env : Option Bool) (m : Msg ι κ)
-    (hreq : ∀ e, env = some e → must = true ∨ e = true)
+    (hord : ∀ k : RoleKind, k ∈ order) (onlyMd must : Bool) (md : Metadata ι κ) (env : Option Bool) (p : DetParams)
+    (m : Msg ι κ) (hreq : ∀ e, env = some e → must = true ∨ e = true)
     (h : (accept true kindOf own order onlyMd false must md
-      (match env with | none => Kind.enveloped | some e => Kind.detached e) m).accepted = true) :
+      (match env with | none => Kind.enveloped | some e => Kind.detached e p) m).accepted = true) :
     KeyOrigin onlyMd md m := by
   cases env with
   | none =>
@@ -276,7 +286,7 @@ theorem C03_accept_key_origin (kindOf : κ → CertKind) (own : κ) (order : Lis
     rcases hreq e rfl with hm | he
     · have hm' : (must || false) = true := by simp [hm]
       obtain ⟨k, hk, hb, _⟩ := C03_redirect_key_origin kindOf own order md m.issuer m.signer
-        (accept_detached_accepted hm' h)
+        (redirectCheckP_accepted (accept_detached_accepted hm' h)).2
       exact Or.inl ⟨k, hk, hb⟩
     · subst he
       have hx := accept_detached_env_accepted h
@@ -332,9 +342,9 @@ theorem C03_model_meets_spec (kindOf : κ → CertKind) (own : κ) (cfg ovcF mus
         right
         rw [keyOriginB_iff]
         rw [hov] at hacc
-        exact hpol _ (C03_accept_key_origin kindOf own _ C03_role_order_complete _ _ md none m
+        exact hpol _ (C03_accept_key_origin kindOf own _ C03_role_order_complete _ _ md none .ok m
           (by intro e he; cases he) hacc)
-    | detached e =>
+    | detached e p =>
       simp only [specKind, specAccept, Bool.not_true, Bool.false_or, meaning_normService, Bool.or_eq_true,
         Bool.and_eq_true, Bool.not_eq_true']
       cases hov : normService ovcF with
@@ -346,15 +356,20 @@ theorem C03_model_meets_spec (kindOf : κ → CertKind) (own : κ) (cfg ovcF mus
           | false => exact Or.inl (Or.inr ⟨rfl, rfl⟩)
           | true =>
             right
+            simp only [Bool.false_eq_true, false_and, if_false]
             rw [keyOriginB_iff]
             rw [hov, hmu] at hacc
-            exact hpol _ (C03_accept_key_origin kindOf own _ C03_role_order_complete _ _ md (some true) m
+            exact hpol _ (C03_accept_key_origin kindOf own _ C03_role_order_complete _ _ md (some true) p m
               (by intro e he; cases he; exact Or.inr rfl) hacc)
         | true =>
           right
-          rw [keyOriginB_iff]
           rw [hov, hmu] at hacc
-          exact hpol _ (C03_accept_key_origin kindOf own _ C03_role_order_complete _ _ md (some e) m
+          have hp : p = .ok := (redirectCheckP_accepted
+            (accept_detached_accepted (by simp) hacc)).1
+          subst hp
+          simp only [bne_self_eq_false, Bool.false_eq_true, and_false, if_false]
+          rw [keyOriginB_iff]
+          exact hpol _ (C03_accept_key_origin kindOf own _ C03_role_order_complete _ _ md (some e) .ok m
             (by intro e' _; exact Or.inl rfl) hacc)
 
 /-! ### completeness (the "only if" is not vacuous: bound keys do validate) -/
@@ -417,8 +432,8 @@ example : (redirectCheck kEx 50 ord mdEx (some 2) (some 20)).verdict = .accepted
 example : (redirectCheck kEx 50 ord mdEx (some 3) (some 99)).verdict = .lookupFailed := by decide
 example : (redirectCheck kEx 50 ord mdEx (some 4) (some 50)).verdict = .verifyRaised := by decide
 example : (redirectCheck kEx 50 ord mdEx (some 4) (some 42)).handed = [40, 41] := by decide
-example : (accept true kEx 50 ord false false true mdEx (.detached true) ⟨some 3, some 99, ⟨[99], none⟩⟩).accepted = false := by decide
-example : (accept true kEx 50 ord true false true mdEx (.detached true) ⟨some 1, some 11, ⟨[11], none⟩⟩).accepted = true := by decide
+example : (accept true kEx 50 ord false false true mdEx (.detached true .ok) ⟨some 3, some 99, ⟨[99], none⟩⟩).accepted = false := by decide
+example : (accept true kEx 50 ord true false true mdEx (.detached true .ok) ⟨some 1, some 11, ⟨[11], none⟩⟩).accepted = true := by decide
 -- nested: advice assertion naming issuer 1 inside member 2's assertion: member 2's key (20) does not
 -- validate it although 2 is the `issuer=` argument; issuer 1's key does
 example : (accept true kEx 50 ord true false true mdEx (.after ⟨some 2, some 20, ⟨[], none⟩⟩ true) ⟨some 1, some 20, ⟨[], none⟩⟩).accepted = false := by decide
@@ -429,8 +444,14 @@ example : (accept true kEx 50 ord true false true mdEx (.after ⟨some 2, some 2
 -- signed requests not required: a detached signature is not looked at
 example : (accept true kEx 50 ord true true true mdEx .enveloped ⟨some 1, some 99, ⟨[], none⟩⟩).accepted = true := by decide
 example : (accept true kEx 50 ord true false true mdEx .enveloped ⟨some 1, some 99, ⟨[], none⟩⟩).accepted = false := by decide
-example : (accept true kEx 50 ord true true true mdEx (.detached false) ⟨some 1, some 99, ⟨[], none⟩⟩).accepted = false := by decide
-example : (accept true kEx 50 ord true false false mdEx (.detached false) ⟨some 1, some 99, ⟨[], none⟩⟩).accepted = true := by decide
+example : (accept true kEx 50 ord true true true mdEx (.detached false .ok) ⟨some 1, some 99, ⟨[], none⟩⟩).accepted = false := by decide
+example : (accept true kEx 50 ord true false false mdEx (.detached false .ok) ⟨some 1, some 99, ⟨[], none⟩⟩).accepted = true := by decide
 example : normService .textFalse = false ∧ normService .textTrue = true ∧ normCommon true .textFalse = true := by decide
+
+-- detached parameters: unimplemented SigAlg or a missing parameter: refused even for the issuer's own key
+example : (accept true kEx 50 ord true false true mdEx (.detached false .unimplemented) ⟨some 1, some 10, ⟨[], none⟩⟩).accepted = false := by decide
+example : (redirectCheckP kEx 50 ord mdEx (some 4) (some 42) .unimplemented).handed = [40, 41, 42] := by decide
+example : (accept true kEx 50 ord true false true mdEx (.detached false .missing) ⟨some 1, some 10, ⟨[], none⟩⟩).accepted = false := by decide
+example : (accept true kEx 50 ord true false true mdEx (.detached false .ok) ⟨some 1, some 10, ⟨[], none⟩⟩).accepted = true := by decide
 
 end C03
